@@ -17,6 +17,7 @@
   `parse[regions]` + oracle `soup` (named; not proof).
 -/
 import CxxModel.Theorems.Stream
+import CxxModel.Theorems.AttrSeq
 import CxxModel.Tables
 namespace Cxx
 
@@ -201,5 +202,19 @@ example (cfg : LexCfg) :
       [exTok "NAME", exTok ")"] { tokbuf := [], lex := { rest := [] }, bounded := true } :=
   .cons (tokenEofOk_of_pop cfg _ (exTok "NAME") [exTok "WHITESPACE", exTok ")"] (by decide))
     (.cons (tokenEofOk_of_pop cfg _ (exTok ")") [] (by decide)) (.nil _))
+
+
+/-- **attribute sequences** `[[ … ]] [[ … ]] alignas( … ) …`: any number of groups with properly
+    nested content, in any order, followed by a token that starts no group, is consumed whole
+    by `_consume_attribute_specifier_seq`, and that token is left in the stream -/
+theorem C13_attribute_sequence (env : Env) (G : Nat) (groups : List AGroup) (ct : CTok) (body : List Tok) (w : World)
+    (bmid b' : Buf) (term : Tok)
+    (hg : GroupBody ct.type body) (hall : ∀ g ∈ groups, g.OK ∧ g.toks.length + 1 ≤ G) (hG : body.length + 1 ≤ G)
+    (hy : Yields env.cfg w.buf (body ++ groups.flatMap AGroup.toks) bmid)
+    (htok : tokenEofOk env.cfg bmid = .ok (some term, b'))
+    (hterm : Gen.attributeSpecifierSeqStartTypes.contains term.type = false) (hn : groups.length + 1 ≤ G + 1) :
+    ∃ (w' : World) (t' : Tok), interp env (P.consumeAttributeSpecifierSeq (G + 1) ct) w = (w', .ok ()) ∧
+      w'.buf = returnToken t' b' ∧ t'.tv = term.tv ∧ SameParse w w' :=
+  attrSeq_consumes env G groups ct body w bmid b' term (G + 1) hg hall hG hy htok hterm hn
 
 end Cxx
